@@ -78,6 +78,8 @@ def gen_case(rng, tier):
                 if x in cfg["spell"] and x not in closed:
                     closed.append(x)
         opts["remove_species"] = closed
+        # the user may spell the electron differently from the file: it is the same species
+        opts["e_spelling"] = rng.choice(["e-", "e-", "e", "E", "E-"])
     if rng.random() < 0.3:
         opts["reduce_by_species"] = sorted(rng.sample(alphabet, max(2, int(len(alphabet) * rng.uniform(0.5, 0.95)))),
                                            key=alphabet.index)
@@ -166,7 +168,8 @@ def run_case(case, rundir):
             if fmt != "naunet":
                 args.append(f"--input-format={fmt}")
             if o["remove_species"]:
-                args.append("--remove-species=" + ",".join(spell[k] for k in o["remove_species"]))
+                args.append("--remove-species=" + ",".join(o.get("e_spelling", spell[k]) if k == "E" else spell[k]
+                                                         for k in o["remove_species"]))
             if o["reduce_by_species"]:
                 args.append("--reduce-by-species=" + ",".join(spell[k] for k in o["reduce_by_species"]))
             if o["remove_duplicate"]:
